@@ -1,4 +1,4 @@
-import Aiorpcx.C08.Live
+import Aiorpcx.C08.Closing
 import Aiorpcx.Facts.C08
 /-!
 # C08 — losing or closing a connection releases every waiter and leaves no task behind
@@ -356,6 +356,39 @@ theorem close_returns {s : S} (h : Reachable s) (c : Closer) (hc : c ∈ s.close
     advance_RB _ (fun x hx => Nat.le_trans (RB_reactBound s x hx) hm)
   have hce := closed_after m i1.h hl (RB_reacting hrb)
   exact ⟨hce, (advance_inv m i1).c.closedAll hce⟩
+
+theorem Reachable.ginv {s : S} (h : Reachable s) : GInv s := by
+  obtain ⟨rt, st, es, hrt, rfl⟩ := h
+  exact run_ginv es (init_inv rt st hrt) (init_ginv rt st)
+
+/-- **A connection is never left half closed**: while the asyncio transport is closing but
+`connection_lost` has not come (a graceful close that does not complete), somebody - an
+application task or a handler - is inside `close(force_after)` with its timer still ahead. -/
+theorem never_half_closed {s : S} (h : Reachable s) (hc : s.closing = true) (hl : s.lost = false) :
+    (∃ c ∈ s.closers, c.st = .waiting ∧ s.now < c.deadline) ∨
+    (∃ x ∈ s.handlers, x.status = .run ∧ ∃ d, x.kind = .closer d ∧ s.now < d) := by
+  rcases h.ginv hc hl with ⟨c, hcm, hw⟩ | ⟨x, hx, hr, d, hk⟩
+  · left; exact ⟨c, hcm, hw, h.inv.c.waitingLt c hcm hw⟩
+  · right; exact ⟨x, hx, hr, d, hk, h.inv.h.closerLt x hx d hk hr⟩
+
+/-- **Closing always ends closed**: from every reachable state in which the transport is
+closing - after a drop, an abort, a completed or a stalled graceful close, from an application
+task or from a handler - there is a time after which `_closed_event` is set for good. -/
+theorem closing_leads_to_closed {s : S} (h : Reachable s) (hc : s.closing = true) :
+    ∃ n, ∀ m, n ≤ m → (s.advance m).closedEvent = true := by
+  rcases Bool.eq_false_or_eq_true s.lost with hl | hl
+  · exact ⟨0 + reactBound s, closed_after_lost_by h.inv 0 hl⟩
+  · rcases never_half_closed h hc hl with ⟨c, hcm, _, _⟩ | ⟨x, hx, hr, d, hk, _⟩
+    · exact ⟨(c.deadline - s.now) + reactBound s,
+        closed_after_lost_by h.inv _ (lost_by_deadline _ h.inv ⟨c, hcm, by omega⟩)⟩
+    · exact ⟨(d - s.now) + reactBound s,
+        closed_after_lost_by h.inv _
+          (lost_by_handler_deadline _ h.inv ⟨x, hx, hr, d, hk, by omega⟩)⟩
+
+example : (run (init 30 true) [.request 1 .slow, .request 2 (.closer 7)]).closing = true ∧
+    (run (init 30 true) [.request 1 .slow, .request 2 (.closer 7)]).lost = false ∧
+    (run (init 30 true) [.request 1 .slow, .request 2 (.closer 7), .advance 7]).closedEvent = true := by
+  decide
 
 /-- **Closing is safe from any context, concurrently and repeatedly**: any number of
 `appClose` / closing-handler / abort / drop events, in any order and interleaved with anything
